@@ -92,7 +92,7 @@ function* shrink(c) {
   if (c.sp === 'T') {
     for (let i = 0; i < c.s.length; i++) yield { sp: 'T', s: c.s.slice(0, i).concat(c.s.slice(i + 1)) };
     // simplify symbols: any letter/entity → 'a'
-    for (let i = 0; i < c.s.length; i++) if ([9, 10].includes(c.s[i])) { const s = c.s.slice(); s[i] = 0; yield { sp: 'T', s }; }
+    for (let i = 0; i < c.s.length; i++) if (['b', '&amp;'].includes(SYM[c.s[i]][0])) { const s = c.s.slice(); s[i] = 0; yield { sp: 'T', s }; }
   } else {
     for (let i = 0; i < c.ch.length; i++) {
       const ch = c.ch.slice(0, i).concat(c.ch.slice(i + 1));
